@@ -89,6 +89,44 @@ def replay(case, rec, m):
         if l1 != exp1:
             problems.append(f"reverse complement locations {l1} expected {exp1}")
         return bool(problems), "reverse_complement: " + ("; ".join(problems) or "agrees with the position/strand/defect mapping")
+    if "feature with" in case:
+        # guided search: features with 1..3 locations on either strand (and mixed), several sequence starts
+        import itertools
+        FW, RV = Location.Strand.FORWARD, Location.Strand.REVERSE
+        comp = {"A": "T", "C": "G", "G": "C", "T": "A"}
+        text = "ATGGCGTACGATTAGAAACCC"
+        for ss2 in (1, 7):
+            a2 = lambda: AnnotatedSequence(Annotation([]), NucleotideSequence(text), ss2)
+            spans = [(ss2 + 1, ss2 + 4), (ss2 + 7, ss2 + 9), (ss2 + 12, ss2 + 18)]
+            for k in (1, 2, 3):
+                for strands in itertools.product((FW, RV), repeat=k):
+                    locs2 = [Location(a, b, st) for (a, b), st in zip(spans[:k], strands)]
+                    feat = Feature("gene", locs2, {})
+                    order = sorted(locs2, key=lambda l: l.first)
+                    if all(l.strand == RV for l in locs2):
+                        order = order[::-1]
+                    exp = ""
+                    for l in order:
+                        piece = text[l.first - ss2:l.last - ss2 + 1]
+                        exp += "".join(comp[c] for c in reversed(piece)) if l.strand == RV else piece
+                    if len(set(strands)) > 1:
+                        continue            # mixed strands: order not specified by the property
+                    aseq2 = a2()
+                    if "__setitem__" in case:
+                        new = ("ACGT" * 6)[:len(exp)]
+                        aseq2[feat] = NucleotideSequence(new)
+                        got = str(aseq2[feat])
+                        outside = [i for i in range(len(text)) if not any(l.first - ss2 <= i <= l.last - ss2 for l in locs2)]
+                        if got != new:
+                            return True, f"after annot_seq[feature {locs2}] = {new!r} (sequence_start {ss2}) the feature reads {got!r}"
+                        if any(str(aseq2.sequence)[i] != text[i] for i in outside):
+                            return True, f"annot_seq[feature {locs2}] = ... changed bases outside the feature"
+                    else:
+                        got = str(aseq2[feat])
+                        if got != exp:
+                            return True, (f"annot_seq[feature {locs2}] (sequence_start {ss2}) = {got!r}, the bases of its locations in biological "
+                                          f"order are {exp!r}")
+        return False, "features with 1..3 locations on either strand read / assign in biological order"
     if "__getitem__" in case and "int" in case:
         idx = int(m.get("idx", m.get("index", ss)))
         idx = min(max(idx, ss), ss + n - 1)
